@@ -7,6 +7,8 @@ type string = Stdlib.String.t
 
 external c_crc : int -> string -> int -> int64 = "vp_crc_impl"
 external c_sse42_supported : unit -> bool = "vp_sse42_supported"
+external c_crc_null : int -> int64 = "vp_crc_null"
+external c_crc_threads : int -> int -> int = "vp_crc_threads"
 external c_crc_inplace : string -> string -> int64 * int64 = "vp_crc_inplace"
 
 let engine = "c17"
@@ -63,6 +65,29 @@ let run ~tier ~seed ~only acc =
   List.iter (fun (klass, s) -> if want () then check acc ~klass ~sse s 0 ~with_model:true; incr idx)
     [ ("vectors", "123456789"); ("vectors", String.make 32 '\000'); ("vectors", String.make 32 '\255');
       ("vectors", String.init 32 Char.chr); ("vectors", String.init 32 (fun i -> Char.chr (31 - i))); ("vectors", "") ];
+  (* the empty buffer given as (NULL, 0): CRC-32C of no bytes is 0 for the dispatcher and both implementations *)
+  List.iter (fun (w, name) ->
+    if want () && (w <> 2 || sse) then begin
+      let case = lazy (JO [ "op", JS (name ^ "(NULL, 0)") ]) in
+      record acc ~key:("null" ^ name) ~nontrivial:true ~klass:"null_empty_buffer" case;
+      let v = c_crc_null w in
+      if v <> 0L then
+        fail acc ~kind:"spec_violation" ~what:(Printf.sprintf "[C17,C12] %s of the empty buffer (NULL, 0) is not 0" name) (JO [ "case", Lazy.force case; "got", JS (Printf.sprintf "%08Lx" v) ])
+    end;
+    incr idx) [ (0, "mtbl_crc32c"); (1, "my_crc32c_slicing"); (2, "my_crc32c_sse42") ];
+  (* several threads at once, each on a private buffer: a checksum is a function of the caller's bytes (writer pools call
+     mtbl_crc32c from their workers); state shared between calls - a static scratch buffer - shows here *)
+  List.iter (fun nthr ->
+    if want () then begin
+      let iters = if tier = "thorough" then 3000000 else 400000 in
+      let case = lazy (JO [ "op", JS "mtbl_crc32c from several threads, private buffers"; "threads", JI nthr; "calls_per_thread", JI iters ]) in
+      record acc ~key:(Printf.sprintf "threads%d" nthr) ~nontrivial:true ~klass:"concurrent_callers" case;
+      let bad = c_crc_threads nthr iters in
+      if bad <> 0 then
+        fail acc ~kind:"spec_violation" ~what:"[C17,C12] mtbl_crc32c called from several threads returned a value that is not the CRC-32C of the caller's buffer"
+          (JO [ "case", Lazy.force case; "wrong_results", JI bad ])
+    end;
+    incr idx) [ 2; 4; 8 ];
   (* the same buffer checksummed twice with its content replaced in place: the value depends on the bytes, not on the address *)
   List.iter (fun n ->
     if want () then begin
